@@ -8,7 +8,7 @@ READY = True
 META = {
     "technique": "Lean 4 proof (Value::cmp = compare on an explicit linearly ordered key for all values incl. floats at bit level; == <=> Equal and == => same hash items outside the bool-vs-number region; algebra of sort/unique/groupby/dictsort/batch/slice/reverse/min/max/select/in/sum/zip/chain/items/list for every list and every total preorder, keys by attribute paths and composite keys; invalid values, object identity and custom_cmp; derived dictionaries: a merged dictionary finds exactly what it lists, dict(m) keeps every entry; C07_main assembles the property with its named exclusions) + differential correspondence of the model on all ordered pairs of a boundary value zoo and on the filter outputs under three builds of the engine (BTreeMap, IndexMap, unicode), sharded over the cores",
     "category": "proof",
-    "text": "Kernel-checked theorems about a Lean transcription of impl Ord/PartialEq/Hash for Value: cmp_refines_key (cmpV a b = lexicographic compare of explicit token keys, hence reflexive/antisymmetric/transitive/total/congruent) for every value whose numbers are in range - integers of all four widths, floats as 64-bit patterns with int/float comparisons proved exact through the concrete round-to-nearest-even `as f64` and saturating `as int` casts, strings, bytes, sequences, tuples, iterables, maps, plain objects, nested arbitrarily; C07_partial (== <=> cmp = Equal, == => equal hash items) for NaN-free values with BTreeMap-ordered maps outside the region `a bool faces a number`, where C07_counterexample shows the full statement false on the code (true == 1, cmp = Less, hashes differ: a known finding pinned by the existing tests); invalid values (total order on (kind, detail) that agrees with == and Hash), plain objects with object identity and a user custom_cmp (== <=> Equal; total order among objects of one type; counterexample across types), the identity short-cut returns the structural answer; filter theorems over an arbitrary item type and total preorder and their instances on values as filters.rs writes them: sort / dictsort / unique / groupby keyed by an attribute, a dotted attribute path with index parts, or several paths (composite key = lexicographic), min / max, select / reject with the comparison tests, in, map literals, sum (= the fold of the C08 integer addition from 0), zip, chain (associative, lengths add, indexing = indexing the concatenation; chained dicts), items <-> dict round trip, list, the pycompat dict.get/keys/values/items and list.count, the sameas test, Value::reverse arm by arm (reverse_counterexample: the RevIter arm is forward - a known finding pinned by test_reverse; reverse_partial for every other arm), derived dictionaries generic in the comparison (MJ.CollD: merge_lookup_iff_listed = `merged[k]` / `k in merged` succeed exactly for the probes Equal to a listed key, whatever the entries hold, needing only reflexivity and transitivity of Equal on the keys present; merged_dict_lists_operand_keys; dictCopy_perm = dict(m) is a permutation of the entries of m when the keys are pairwise not Equal; merged_dict_lists_key_once / dict_copy_sorted = strictly increasing listings; dict_copy_is_from_pairs = dict(m) is the map from_pairs builds; dict_update_last_wins; namespace_keeps_string_entries / namespace_lookup_iff = namespace(m) holds exactly the string-keyed entries, a bytes probe finds nothing; merged_dict_old_lookup_counterexample and dict_collect_loses_entry show the two pre-fix versions violate the laws), the IndexMap build's own theorems (indexmap_insert_keeps_insertion_order: iteration order is insertion order, an existing key keeps its place and spelling; indexmap_get_after_insert_new; indexmap_lookup_sound / indexmap_lookup_complete: lookup = same hash items and ==), and C07_main (one theorem: order laws, == <=> Equal and == => same hash under the named exclusions NoNaN / SortedMaps / noClash with C07_counterexample for the excluded region, the filter algebra for every list and total preorder, reverse per arm with reverse_counterexample, min / max, derived dictionaries). Ties to /repo: regenerated tables (kind order, cmp_kind aliases, small-map scan threshold, hash zero kinds, query_len arms, the arms of Value::reverse, which comparison helper every collection filter calls with which flags, how dict(m) / MergeDict / namespace(m) / `in` build and query derived dictionaries) and the correspondence: every ordered pair of a ~360-value boundary zoo and of seeded random nested values through Value::cmp, == and Hash and through the Lean model, the laws themselves evaluated directly on the implementation's answers (rank criterion for the total preorder, == vs Equal, == vs hash, template operators / in / dict lookup), the filter laws on the outputs for all lists of length <= 5 over three 7-value alphabets (numbers/strings, strings/bytes, undefined/bool/list/tuple/map/object items) given as list, tuple, lazy iterable, VecDeque, user sequence object, map (its keys), string (its characters), with every keyword option, long random lists, every lookup entry point x 13 map backings x 7 sizes, reverse/first/last/list/length on 52 container shapes (every repr x enumerator variant), the model-compared filter / sum / zip / chain / items / list / sameas / pycompat cases, and the derived-map stream `dm` (every base map of <= 2 keys over a 10-key alphabet - true next to 1, false next to 0, string / bytes / none / NaN / list keys - x 4 value patterns with undefined and none values x 4 backings, through dict(m), dict(m, k=v), dict(**m), namespace(m), chain, merge_maps and seeded nestings of those: listing vs `in` vs subscript vs |items vs |length vs len(), copies keep the entries and are == their source, merges keep the keys, two instances agree in == / cmp / hash); all of it under the BTreeMap build and the IndexMap build, the filter streams also under the unicode build (cmp_helper via unicase).",
+    "text": "Kernel-checked theorems about a Lean transcription of impl Ord/PartialEq/Hash for Value: cmp_refines_key (cmpV a b = lexicographic compare of explicit token keys, hence reflexive/antisymmetric/transitive/total/congruent) for every value whose numbers are in range - integers of all four widths, floats as 64-bit patterns with int/float comparisons proved exact through the concrete round-to-nearest-even `as f64` and saturating `as int` casts, strings, bytes, sequences, tuples, iterables, maps, plain objects, nested arbitrarily; C07_partial (== <=> cmp = Equal, == => equal hash items) for NaN-free values with BTreeMap-ordered maps outside the region `a bool faces a number`, where C07_counterexample shows the full statement false on the code (true == 1, cmp = Less, hashes differ: a known finding pinned by the existing tests); invalid values (total order on (kind, detail) that agrees with == and Hash), plain objects with object identity and a user custom_cmp (== <=> Equal; total order among objects of one type; counterexample across types), the identity short-cut returns the structural answer; filter theorems over an arbitrary item type and total preorder and their instances on values as filters.rs writes them: sort / dictsort / unique / groupby keyed by an attribute, a dotted attribute path with index parts, or several paths (composite key = lexicographic), min / max, select / reject with the comparison tests, in, map literals, sum (= the fold of the C08 integer addition from 0), zip, chain (associative, lengths add, indexing = indexing the concatenation; chained dicts), items <-> dict round trip, list, the pycompat dict.get/keys/values/items and list.count, the sameas test, Value::reverse arm by arm (reverse_counterexample: the RevIter arm is forward - a known finding pinned by test_reverse; reverse_partial for every other arm), derived dictionaries generic in the comparison (MJ.CollD: merge_lookup_iff_listed = `merged[k]` / `k in merged` succeed exactly for the probes Equal to a listed key, whatever the entries hold, needing only reflexivity and transitivity of Equal on the keys present; merged_dict_lists_operand_keys; dictCopy_perm = dict(m) is a permutation of the entries of m when the keys are pairwise not Equal; merged_dict_lists_key_once / dict_copy_sorted = strictly increasing listings; dict_copy_is_from_pairs = dict(m) is the map from_pairs builds; dict_update_last_wins; namespace_keeps_string_entries / namespace_lookup_iff = namespace(m) holds exactly the string-keyed entries, a bytes probe finds nothing; merged_dict_old_lookup_counterexample and dict_collect_loses_entry show the two pre-fix versions violate the laws), the IndexMap build's own theorems (indexmap_insert_keeps_insertion_order: iteration order is insertion order, an existing key keeps its place and spelling; indexmap_get_after_insert_new; indexmap_lookup_sound / indexmap_lookup_complete: lookup = same hash items and ==), strings (string_order_is_lexicographic: the order of two strings is the byte-wise lexicographic order of their texts; string_prefix_is_smaller: a proper prefix is strictly smaller whatever byte follows; string_cmp_independent_of_repr: every pair of representations - inline / heap, normal / safe - compares and tests equal like the texts; padded_buffer_order_counterexample: comparing the zero-padded inline buffers is not that order; string_arms_tie: the arms as regenerated from the source), and C07_main (one theorem: order laws, == <=> Equal and == => same hash under the named exclusions NoNaN / SortedMaps / noClash with C07_counterexample for the excluded region, the filter algebra for every list and total preorder, reverse per arm with reverse_counterexample, min / max, derived dictionaries). Ties to /repo: regenerated tables (kind order, cmp_kind aliases, small-map scan threshold, hash zero kinds, query_len arms, the arms of Value::reverse, which comparison helper every collection filter calls with which flags, how dict(m) / MergeDict / namespace(m) / `in` build and query derived dictionaries) and the correspondence: every ordered pair of a ~360-value boundary zoo and of seeded random nested values through Value::cmp, == and Hash and through the Lean model, the laws themselves evaluated directly on the implementation's answers (rank criterion for the total preorder, == vs Equal, == vs hash, template operators / in / dict lookup), the filter laws on the outputs for all lists of length <= 5 over three 7-value alphabets (numbers/strings, strings/bytes, undefined/bool/list/tuple/map/object items) given as list, tuple, lazy iterable, VecDeque, user sequence object, map (its keys), string (its characters), with every keyword option, long random lists, every lookup entry point x 13 map backings x 7 sizes, reverse/first/last/list/length on 52 container shapes (every repr x enumerator variant), the model-compared filter / sum / zip / chain / items / list / sameas / pycompat cases, and the derived-map stream `dm` (every base map of <= 2 keys over a 10-key alphabet - true next to 1, false next to 0, string / bytes / none / NaN / list keys - x 4 value patterns with undefined and none values x 4 backings, through dict(m), dict(m, k=v), dict(**m), namespace(m), chain, merge_maps and seeded nestings of those: listing vs `in` vs subscript vs |items vs |length vs len(), copies keep the entries and are == their source, merges keep the keys, two instances agree in == / cmp / hash); all of it under the BTreeMap build and the IndexMap build, the filter streams also under the unicode build (cmp_helper via unicase).",
     "design_ref": "DESIGN.md §3 C07",
     "level_note": "Trusted: Lean kernel; hand transcription of value/mod.rs (Ord, PartialEq, Hash, cmp_f64*, cmp_uncoercible_numbers, reverse, get_path), ops.rs (coerce, as_f64, contains), argtypes.rs (integer TryFrom) into MJ/Model/{CmpF64,Value,Cmp}.lean and of filters.rs (batch, slice, sort, unique, groupby, dictsort, min, max, reverse, sum, zip, chain, items, list, select/reject), merge_object.rs, tests.rs (sameas, comparison tests), pycompat.rs into MJ/Model/{Coll,CollV,CollX}.lean, validated by the correspondence (exhaustive over the zoo pairs and the enumerated words, not over all values); IEEE-754 semantics of the f64 primitives; Rust's stable sort_by is taken to be the unique stable sort (List.mergeSort), BTreeMap/BTreeSet lookups to find an element iff one compares Equal; invalid values and objects with identity / custom_cmp are modelled at top level only (nested inside containers their pairs are law-checked, not model-compared); a user custom_cmp is assumed to be `compare` on some key (the contract Ord needs; across object types the engine's fallback to renderings is not an order, shown by counterexample); float items of `sum` are outside the model (integer sums are the C08 model); `chain` indexing is modelled for operands of known length; case folding is ASCII in the model (str::to_lowercase / unicase are parameters; the alphabets are ASCII); under preserve_order (IndexMap) the == / hash theorems do not apply (insertion-order findings).  MOVED FROM VALIDATED TO PROVED in session 4: MergeDict (chain of dictionaries, layered contexts) lookup vs listing and the copy dict(m) were law-checked by nothing (the two fixes 276e6ac / 79eda21 were found by laws that were lost); they are now a generic Lean model (MJ.Model.CollD, mirrored by CollX.chainGet in the driver) with theorems for EVERY comparison that is reflexive with a transitive Equal, instantiated on cmpV, executed against the engine by the `chain mapu` correspondence cases, and law-checked on the engine by the `dm` stream.  namespace(m) (string keys only, fix 903639e) and dict(m, k=v) have theorems too; under preserve_order the IndexMap variants now have theorems of their own (insertion order, lookup by hash + ==) instead of only exclusions, while == <=> Equal stays false there (recorded insertion-order findings).  STILL ONLY VALIDATED: dict(**m) and nestings of derived maps (law-checked by `dm`, not modelled); HashMap-backed and user-defined map objects as operands (their own lookups are outside the model).  The quick tier samples the words of length 5 (1 in 8) and of length 4 over the second / third alphabet (1 in 4) by VERIF_SEED; all words of length <= 4 (<= 3) stay exhaustive; thorough enumerates everything.",
 }
@@ -638,7 +638,7 @@ def run(r):
     r.rule = ("all ordered pairs (A[i], B[j]) of two independently built instances of the boundary zoo through Value::cmp, ==, Hash "
               "(the matrix decides antisymmetry, transitivity via the rank criterion, ==<=>Equal, ==>=same hash), the same pairs through the "
               "template operators < <= > == in and dict lookup; every list of length <=4 (thorough: <=5; quick samples length 5 one in 8 by seed) over 7-value alphabets (A: numbers / strings / none, "
-              "B: strings next to utf-8 and non-utf-8 bytes, C: undefined / bool / number / list / tuple / map / plain object items; plain items, "
+              "B: strings next to utf-8 and non-utf-8 bytes, C: undefined / bool / number / list / tuple / map / plain object items, D: the strings a / a\\0 inline and heap / a\\0\\0 / a\\x01 / safe a / A\\0; plain items, "
               "items wrapped in maps for attribute=, given as list / tuple / sized+unsized iterable / VecDeque / user sequence object / map (keys) / "
               "string (characters) / dict) through sort (no / one / several attributes x reverse x case_sensitive, dotted paths with missing parts) / "
               "dictsort / unique / groupby (with and without default) / batch / slice / reverse / first / last / min / max with all keyword options, "
@@ -652,7 +652,7 @@ def run(r):
               "and absent size hints); run under BTreeMap and IndexMap, the filter streams also with the `unicode` feature.  "
               "A pair is non-trivial when i != j, a list when it has >=2 items, a lookup case when key and probe differ.  "
               "The zoo holds every string text as &str (inline up to 22 bytes), Arc<str> (heap) and safe string: empty, NULs leading / in the middle / trailing / repeated, "
-              "prefixes of each other, 21 / 22 / 23 bytes with and without a trailing NUL or a two-byte character across the inline limit.  "
+              "prefixes of each other, 0x01 / 0x7f / 2- 3- 4-byte characters behind a common prefix, 21 / 22 / 23 bytes with and without a trailing NUL or a two-byte character across the inline limit.  "
               "The zoo also holds the silent undefined, one-shot iterators (rebuilt per operation), user objects of every repr "
               "(Seq / Map / Plain with custom_cmp), namespace objects, invalid values, NaN / -0.0 / cmp-equal keys in maps; seeded random nested values "
               "(depth <=4: all scalar kinds incl. random float bit patterns, seq/tuple/iterable/one-shot/user-seq/map/user-map, plus mutated near-copies) "
@@ -675,7 +675,7 @@ def run(r):
                      "a user-defined map object or HashMap that lists two == keys is not a well-formed dictionary (not generated as an operand of the derived-map stream)",
                      "batch/slice counts for which `count` list headers cannot be held in memory but can be reserved are outside the quantifier (resource exhaustion, not a panic)"]
     r.regen_tables(["VALUE_KIND_ORDER", "C07_CMP_KIND_ALIAS", "C07_VALUE_MAP_STR_SCAN_MAX", "C07_HASH_ZERO_KINDS", "C07_QUERY_LEN_ARMS",
-                    "C07_REVERSE_ARMS", "C07_FILTER_CMP_CALLS", "C07_DERIVED_MAPS"])
+                    "C07_REVERSE_ARMS", "C07_FILTER_CMP_CALLS", "C07_DERIVED_MAPS", "C07_STR_ARMS", "SMALL_STR_CAP"])
     r.lean_prove("MJ.Props.C07", "MJ/Audit/C07.lean", extra_targets=["drive_c07"])
     r.exhaustive = False
     if r.driver("drive_c07", "", args=["btree"]) is None:      # (builds the driver once; the shards run the binary)
